@@ -90,6 +90,15 @@ private:
             Deleter()(ptr_);
     }
 
+    //! decrement reference count of an object this pointer no longer refers to
+    //! and maybe delete it. Called last: deleting the object may destroy the
+    //! CountingPtr passed to an assignment, or *this.
+    static void release(Type* o) noexcept
+    {
+        if (o && o->dec_reference())
+            Deleter()(o);
+    }
+
 public:
     //! all CountingPtr are friends such that they may steal pointers.
     template <typename Other, typename OtherDeleter>
@@ -152,9 +161,10 @@ public:
     {
         if (ptr_ == other.ptr_)
             return *this;
-        inc_reference(other.ptr_);
-        dec_reference();
+        Type* old = ptr_;
         ptr_ = other.ptr_;
+        inc_reference(ptr_);
+        release(old);
         return *this;
     }
 
@@ -167,9 +177,10 @@ public:
     {
         if (ptr_ == other.ptr_)
             return *this;
-        inc_reference(other.ptr_);
-        dec_reference();
+        Type* old = ptr_;
         ptr_ = other.ptr_;
+        inc_reference(ptr_);
+        release(old);
         return *this;
     }
 
@@ -178,9 +189,10 @@ public:
     {
         if (ptr_ == other.ptr_)
             return *this;
-        dec_reference();
+        Type* old = ptr_;
         ptr_ = other.ptr_;
         other.ptr_ = nullptr;
+        release(old);
         return *this;
     }
 
@@ -192,9 +204,10 @@ public:
     {
         if (ptr_ == other.ptr_)
             return *this;
-        dec_reference();
+        Type* old = ptr_;
         ptr_ = other.ptr_;
         other.ptr_ = nullptr;
+        release(old);
         return *this;
     }
 
